@@ -818,7 +818,17 @@ fn main() {
         }
         i += 1;
     }
-    let is_target = !out_dir.is_empty() && targets.split(',').any(|t| t == crate_name);
+    let named = targets.split(',').any(|t| t == crate_name);
+    // compile-fail witnesses: add a cfg to the target crate only (dependencies stay cached)
+    if named {
+        if let Ok(extra) = std::env::var("FEOXLINT_EXTRA_CFG") {
+            for c in extra.split(',').filter(|c| !c.is_empty()) {
+                args.push("--cfg".to_string());
+                args.push(c.to_string());
+            }
+        }
+    }
+    let is_target = !out_dir.is_empty() && named;
     if !is_target {
         struct Nop;
         impl rustc_driver::Callbacks for Nop {}
